@@ -165,6 +165,19 @@ class Interp:
             return ClassRef(dotted)
         if dotted in CONSTANTS:
             return CONSTANTS[dotted]
+        root = dotted.split(".")[0]
+        if root in STDLIB_PASSTHROUGH and "." in dotted:
+            import importlib
+            try:
+                obj = importlib.import_module(root)
+                for part in dotted.split(".")[1:]:
+                    obj = getattr(obj, part)
+                if callable(obj):
+                    return StdlibCall(dotted, obj)
+                if isinstance(obj, (int, float, str)):
+                    return obj
+            except (ImportError, AttributeError):
+                pass
         if extract.is_module(dotted) or dotted.split(".")[0] in EXTERNAL_ROOTS:
             if extract.is_module(dotted):
                 return ModuleRef(dotted)
@@ -2025,6 +2038,26 @@ class DefaultDict:
         ty = TDict(self.kty, TSet(self.ety))
         keys = core.fresh(TSeq(self.kty), "keyorder")
         return SV(ty, ty.sort().mkdict(keys.t, self.dom, self.term))
+
+
+STDLIB_PASSTHROUGH = {"re", "textwrap", "math", "string"}  # pure stdlib functions: executed for real on concrete arguments (ASSUMED correct)
+
+
+class StdlibCall:
+    def __init__(self, dotted, fn):
+        self.dotted, self.fn = dotted, fn
+
+    def __call__(self, ctx, st, *args, **kwargs):
+        def concrete(v):
+            if isinstance(v, (SV, SymIter, Record)):
+                return False
+            if isinstance(v, (list, tuple)):
+                return all(concrete(x) for x in v)
+            return True
+        if not all(concrete(a) for a in list(args) + list(kwargs.values())):
+            raise Unsupported(f"{self.dotted} with symbolic arguments")
+        ctx.assumed_used.add(f"stdlib {self.dotted} executed on concrete arguments")
+        return self.fn(*args, **kwargs)
 
 
 CONSTANTS: dict = {}
